@@ -1944,12 +1944,22 @@ XMLReader::xcodeMoreChars(          XMLCh* const            bufToFill
         {
             refreshRawBuffer();
 
-            // If there are no characters or if we need more but didn't get
-            // any, return zero now.
+            // If there are no characters, return zero now.
             //
-            if (fRawBytesAvail == 0 ||
-                (needMode && (bytesLeft == fRawBytesAvail - fRawBufIndex)))
+            if (fRawBytesAvail == 0)
                 return 0;
+
+            // If we need more but didn't get any, the input ends in the
+            // middle of a multi-byte sequence. That is a decoding error,
+            // not the end of the entity. (With room for a single char the
+            // transcoder may legitimately decline a surrogate pair.)
+            //
+            if (needMode && (bytesLeft == fRawBytesAvail - fRawBufIndex))
+            {
+                if (maxChars > 1)
+                    ThrowXMLwithMemMgr(TranscodingException, XMLExcepts::Trans_BadSrcSeq, fMemoryManager);
+                return 0;
+            }
         }
 
         // Ask the transcoder to internalize another batch of chars. It is
